@@ -146,7 +146,7 @@ func C12_suffixed_reader() {
 	var src io.Reader = bytes.NewReader(payload)
 	byteReader := vChoose("bytereader", 2) == 1
 	if !byteReader {
-		src = vPlain{&vBytesSrc{data: payload, one: vChoose("one", 2) == 1}}
+		src = vPlain{&vBytesSrc{data: payload, one: vChoose("one", 2) == 1, eofWith: vChoose("eofwith", 2) == 1}}
 	}
 	var d *vDecomp
 	r := NewReader(src, func(x io.Reader) Decompressor { d = &vDecomp{r: x}; return d })
